@@ -1,5 +1,5 @@
 """C08 — loading is deterministic under every thread schedule."""
-import json, os, collections
+import json, os, re, collections
 import vlib
 from vlib import Check, tlc, run_bin, workdir, write_ndjson, read_ndjson
 import c02
@@ -60,13 +60,37 @@ def run(tier):
     of = os.path.join(w, "orders.ndjson")
     write_ndjson(of, orders)
     # (G) files with several object streams from the Producer (histories)
-    res = [c02.gen_files(w, "q", 40, 250 if tier == "quick" else 1500, vlib.seed() + 8, 7, 3)]
+    res = [c02.gen_files(w, "q", 40, 250 if tier == "quick" else 1500, vlib.seed() + 8, 7, 3, cfg="Gen_File_ghosts.cfg")]
     files = []
     for r, cases in res:
         chk.add_tlc(r)
         files += [f for f in cases if f["xref"].startswith("stream")]
-    files.sort(key=lambda f: -f["ncomp"])
+    files.sort(key=lambda f: (-(f["ghost"] > 0 and f["ncomp"] >= 2), -f["ncomp"]))
     files = files[:60 if tier == "quick" else 400]
+    if sum(1 for f in files if f["ghost"] > 0 and f["ncomp"] >= 2) < 3:
+        raise vlib.ToolError("vacuous: fewer than 3 files whose object streams share an unreferenced member")
+    # adversarial variants: inside one (unfiltered) object stream the second member gets the number of the first
+    dups = []
+    for f in files:
+        b = bytes(f["bytes"])
+        done = False
+        for hm in re.finditer(rb"stream\r?\n((?:\d+ \d+[ \r\n]+){2,})", b):
+            pairs = list(re.finditer(rb"(\d+) (\d+)[ \r\n]+", hm.group(1)))
+            for i in range(len(pairs)):
+                for j in range(i + 1, len(pairs)):
+                    a, c = pairs[i].group(1), pairs[j].group(1)
+                    if len(a) == len(c) and a != c and not done:
+                        st = hm.start(1) + pairs[j].start(1)
+                        nb = b[:st] + a + b[st + len(c):]
+                        g = dict(f)
+                        g["bytes"] = list(nb)
+                        g["dupmember"] = True
+                        dups.append(g)
+                        done = True
+    if len(dups) < 3:
+        raise vlib.ToolError("vacuous: fewer than 3 variants with a duplicated member number inside one object stream")
+    files = files + dups[:20 if tier == "quick" else 150]
+    chk.extra["files_with_duplicate_member_in_one_stream"] = len(dups[:20 if tier == "quick" else 150])
     if sum(1 for f in files if f["ncomp"] >= 2) < 10:
         raise vlib.ToolError("vacuous: fewer than 10 generated files with >= 2 object streams")
     fin = os.path.join(w, "files.ndjson")
@@ -94,7 +118,7 @@ def run(tier):
             forced += v["v"] == "ok-forced-order"
         else:
             chk.violation("C08:" + v["v"], {"schedule": {k: rec.get(k) for k in ("kind", "threads", "rep", "order", "observed")},
-                                            "hash": rec["hash"], "seqhash": rec["seqhash"], "knobs": {k: f[k] for k in ("xref", "nrevs", "ncomp", "redefined")},
+                                            "hash": rec["hash"], "seqhash": rec["seqhash"], "knobs": {k: f.get(k) for k in ("xref", "nrevs", "ncomp", "redefined", "ghost", "dupmember")},
                                             "bytes": f["bytes"]})
     if forced < 50:
         raise vlib.ToolError("vacuous: only %d loads with a forced completion order" % forced)
